@@ -1,12 +1,28 @@
 /- Line-protocol driver: one operation per input line, one canonical line out. -/
 import Driver.Util
 import Driver.OpsView
+import Driver.OpsPack
 
 open Jubako Jubako.Driver
+
+/-- one-entry file cache: consecutive ops on the same file read it once -/
+initialize fileCache : IO.Ref (String × Bytes) ← IO.mkRef ("", [])
+
+def fileOf (path : String) : IO Bytes := do
+  let (p, b) ← fileCache.get
+  if p == path then return b
+  let b ← readFileBytes path
+  fileCache.set (path, b)
+  return b
 
 def dispatch (line : String) : IO String := do
   match line.trimAscii.toString.splitOn " " with
   | "c13" :: args => return runView args
+  | "b3" :: args => runPack fileOf "b3" args
+  | "pk.check" :: args => runPack fileOf "pk.check" args
+  | "pk.checkx" :: args => runPack fileOf "pk.checkx" args
+  | "mp.infos" :: args => runPack fileOf "mp.infos" args
+  | "mp.setloc" :: args => runPack readFileBytes "mp.setloc" args
   | ["ping"] => return "pong"
   | _ => return "bad-op"
 
